@@ -1,6 +1,7 @@
 package main
 
 import (
+	"bytes"
 	"encoding/json"
 	"fmt"
 	"io"
@@ -32,9 +33,10 @@ import (
 // upstream counts for itself: an upstream may be contacted only if the rules of ITS target admit the peer.
 
 type multiTarget struct {
-	Allow string `json:"allow"`
-	Deny  string `json:"deny"`
-	Up    string `json:"up"` // "live" | "dead" (nobody listens: the dial is refused)
+	Allow    string `json:"allow"`
+	Deny     string `json:"deny"`
+	Up       string `json:"up"`       // "live" | "dead" (nobody listens: the dial is refused)
+	Redirect string `json:"redirect"` // table mode, http: the redirect= option
 }
 
 type multiIn struct {
@@ -45,7 +47,12 @@ type multiIn struct {
 	Via     string        `json:"via"`   // v4 | v6: how the client reaches the listener
 	Targets []multiTarget `json:"targets"`
 	XFF     []string      `json:"xff"`
-	Kind    string        `json:"kind"` // http only: "" | "ws" (Upgrade: websocket — raw dial) | "sse" (Accept: text/event-stream)
+	// Table: the targets are installed with `route add … opts "…"` commands through route.NewTable, and the proxies
+	// look them up the way main.go wires it: Table.Lookup (HTTP: matcher, glob cache, the per-request copy of a
+	// redirect target) resp. Table.LookupHost, with the real round-robin picker. Otherwise the harness hands out the
+	// targets of the case round robin itself.
+	Table bool   `json:"table"`
+	Kind  string `json:"kind"` // http only: "" | "ws" (Upgrade: websocket — raw dial) | "sse" (Accept: text/event-stream)
 }
 
 const multiSlots = 3
@@ -55,11 +62,14 @@ type multiEnv struct {
 	httpUp  [multiSlots]string // URLs
 	tlsUp   [multiSlots]string // host:port
 	echoUp  [multiSlots]string
-	dead    string // host:port nobody listens on (bound, never listening: the port stays ours)
+	dead    [multiSlots]string // host:port nobody listens on (bound, never listening: the port stays ours)
 	ports   map[string]string
 	mu      sync.Mutex
 	targets []*route.Target
 	cursor  int
+	table   route.Table // table mode (nil otherwise)
+	picks   []int       // which target each lookup of the case returned (len(targets) = none)
+	globs   *route.GlobCache
 }
 
 var (
@@ -68,16 +78,38 @@ var (
 	menvErr  error
 )
 
-// lookup hands out the targets of the case round robin, like the rr picker of the routing table.
-func (e *multiEnv) lookup() *route.Target {
+// lookup hands out the targets of the case round robin, like the rr picker of the routing table — or, in table
+// mode, asks the real table as main.go does. Every answer is recorded: the lookup sequence is the oracle the
+// model's `lk` is instantiated with.
+func (e *multiEnv) lookup(req *http.Request, host string) *route.Target {
 	e.mu.Lock()
 	defer e.mu.Unlock()
+	var t *route.Target
+	if e.table != nil {
+		if req != nil {
+			t = e.table.Lookup(req, "", route.Picker["rr"], route.Matcher["prefix"], e.globs, false)
+		} else {
+			t = e.table.LookupHost(host, route.Picker["rr"])
+		}
+		idx := len(e.targets)
+		if t != nil {
+			if n, err := strconv.Atoi(strings.TrimPrefix(t.Service, "svc")); err == nil && n >= 0 && n < len(e.targets) {
+				idx = n
+			} else {
+				idx = -1
+			}
+		}
+		e.picks = append(e.picks, idx)
+		return t
+	}
 	if len(e.targets) == 0 {
+		e.picks = append(e.picks, 0)
 		return nil
 	}
-	t := e.targets[e.cursor%len(e.targets)]
+	i := e.cursor % len(e.targets)
 	e.cursor++
-	return t
+	e.picks = append(e.picks, i)
+	return e.targets[i]
 }
 
 func deadAddr() (string, error) {
@@ -142,21 +174,24 @@ func setupMulti() (*multiEnv, error) {
 			}
 		}()
 	}
-	var err error
-	if e.dead, err = deadAddr(); err != nil {
-		return nil, err
+	for i := range e.dead {
+		var err error
+		if e.dead[i], err = deadAddr(); err != nil {
+			return nil, err
+		}
+		if c, err := net.DialTimeout("tcp", e.dead[i], time.Second); err == nil {
+			c.Close()
+			return nil, fmt.Errorf("the address meant to refuse connections accepts them")
+		}
 	}
-	if c, err := net.DialTimeout("tcp", e.dead, time.Second); err == nil {
-		c.Close()
-		return nil, fmt.Errorf("the address meant to refuse connections accepts them")
-	}
+	e.globs = route.NewGlobCache(16)
 
 	hp := &proxy.HTTPProxy{
 		Config:    config.Proxy{},
 		Transport: &http.Transport{DisableKeepAlives: true},
-		Lookup:    func(*http.Request) *route.Target { return e.lookup() },
+		Lookup:    func(r *http.Request) *route.Target { return e.lookup(r, "") },
 	}
-	lk := func(string) *route.Target { return e.lookup() }
+	lk := func(host string) *route.Target { return e.lookup(nil, host) }
 	handlers := map[string]tcp.Handler{
 		"tcp": &tcp.Proxy{Lookup: lk, DialTimeout: 2 * time.Second},
 		"sni": &tcp.SNIProxy{Lookup: lk, DialTimeout: 2 * time.Second},
@@ -218,13 +253,15 @@ func runMulti(raw json.RawMessage) (interface{}, error) {
 		}
 	}
 	tgts := make([]*route.Target, len(in.Targets))
+	var tbl route.Table
+	var cmds strings.Builder
 	for i, mt := range in.Targets {
 		var up string
 		switch {
 		case mt.Up != "live" && in.Proto == "http":
-			up = "http://" + e.dead + "/"
+			up = "http://" + e.dead[i] + "/"
 		case mt.Up != "live":
-			up = "tcp://" + e.dead
+			up = "tcp://" + e.dead[i]
 		case in.Proto == "http":
 			up = e.httpUp[i]
 		case in.Proto == "sni":
@@ -232,10 +269,40 @@ func runMulti(raw json.RawMessage) (interface{}, error) {
 		default:
 			up = "tcp://" + e.echoUp[i]
 		}
-		tgts[i] = route.VerifC12AddTarget(up, mkOpts(mt.Allow, mt.Deny))
+		if !in.Table {
+			tgts[i] = route.VerifC12AddTarget(up, mkOpts(mt.Allow, mt.Deny))
+			continue
+		}
+		var opts []string
+		for _, kv := range [][2]string{{"allow", mt.Allow}, {"deny", mt.Deny}, {"redirect", mt.Redirect}} {
+			if strings.ContainsAny(kv[1], " \t\r\n\"=") {
+				return nil, fmt.Errorf("option value %q cannot be written in a route command", kv[1])
+			}
+			if kv[1] != "" && (kv[0] != "redirect" || in.Proto == "http") {
+				opts = append(opts, kv[0]+"="+kv[1])
+			}
+		}
+		src := ":" + e.ports[key] // tcp, dyn: the port of the listener
+		switch in.Proto {
+		case "http":
+			src = "/"
+		case "sni":
+			src = "c12.test/"
+		}
+		fmt.Fprintf(&cmds, "route add svc%d %s %s", i, src, up)
+		if len(opts) > 0 {
+			fmt.Fprintf(&cmds, " opts \"%s\"", strings.Join(opts, " "))
+		}
+		cmds.WriteString("\n")
+	}
+	if in.Table {
+		var err error
+		if tbl, err = route.NewTable(bytes.NewBufferString(cmds.String())); err != nil {
+			return nil, fmt.Errorf("route table: %v", err)
+		}
 	}
 	e.mu.Lock()
-	e.targets, e.cursor = tgts, 0
+	e.targets, e.cursor, e.table, e.picks = tgts, 0, tbl, nil
 	e.mu.Unlock()
 
 	var before [multiSlots]int64
@@ -300,14 +367,44 @@ func runMulti(raw json.RawMessage) (interface{}, error) {
 		}
 		refs[i] = refEval(mt.Allow, mt.Deny, peer, in.XFF, tcpIP, true)
 	}
-	return map[string]interface{}{"peer": peer, "outcome": outcome, "hits": hits, "refs": refs}, nil
+	e.mu.Lock()
+	picks := append([]int{}, e.picks...)
+	e.mu.Unlock()
+	for _, p := range picks {
+		if p < 0 {
+			return nil, fmt.Errorf("the table returned a target that is not of this case")
+		}
+	}
+	return map[string]interface{}{"peer": peer, "outcome": outcome, "hits": hits, "refs": refs, "picks": picks}, nil
+}
+
+// compactRule: a list whose items hold no blanks (it has to fit into the opts "…" of a route command).
+func compactRule(r *hx.Rand, with string, bad bool) string {
+	n := 1 + r.Intn(3)
+	items := make([]string, n)
+	for i := range items {
+		items[i] = r.Pick([]string{"ip", "IP", "Ip"}) + ":" + r.Pick(goodBlocks)
+	}
+	if with != "" {
+		items[r.Intn(n)] = "ip:" + with
+	}
+	if bad {
+		items[r.Intn(n)] = r.Pick([]string{"ip:127.0.0.1/33", "foo:127.0.0.1", "ip:bad", "127.0.0.1", "ip:", "ip:fe80::1%eth0", ""})
+	}
+	return strings.Join(items, ",")
 }
 
 func genMulti(r *hx.Rand) multiIn {
 	in := multiIn{Proto: r.Pick([]string{"http", "tcp", "tcp", "sni", "dyn"}), Via: r.Pick([]string{"v4", "v4", "v6"}), XFF: []string{}}
 	in.PP = r.Chance(2, 3)
+	in.Table = r.Chance(1, 2)
+	peer := "127.0.0.1"
+	if in.Via == "v6" {
+		peer = "::1"
+	}
 	if in.PP {
 		in.Src, in.Port = r.Pick(addrs), r.Range(1024, 65000)
+		peer = in.Src
 	}
 	n := []int{1, 2, 2, 2, 3, 3}[r.Intn(6)]
 	if r.Chance(1, 40) {
@@ -315,9 +412,39 @@ func genMulti(r *hx.Rand) multiIn {
 	}
 	for i := 0; i < n; i++ {
 		var t multiTarget
-		if in.PP {
-			t.Allow, t.Deny = genOpts(r)
-		} else {
+		switch {
+		case in.Table:
+			switch r.Intn(6) {
+			case 0:
+			case 1:
+				t.Allow = compactRule(r, "", true)
+				if r.Chance(1, 3) {
+					t.Allow, t.Deny = "", t.Allow
+				}
+			case 2:
+				t.Allow = compactRule(r, peer, false)
+			case 3:
+				t.Allow = compactRule(r, "", false)
+			case 4:
+				t.Deny = compactRule(r, peer, false)
+			default:
+				t.Deny = compactRule(r, "", false)
+			}
+			if in.Proto == "http" && r.Chance(1, 4) {
+				t.Redirect = r.Pick([]string{"301", "302", "308", "+307", "200", "abc"})
+			}
+		case in.PP:
+			switch r.Intn(5) {
+			case 0, 1:
+				t.Allow, t.Deny = genOpts(r)
+			case 2: // an allow list with the announced source among its blocks
+				t.Allow = genRule(r, 0, 1) + "," + r.Pick(typesGood) + ":" + in.Src
+			case 3: // a deny list naming it
+				t.Deny = r.Pick(typesGood) + ":" + in.Src + "," + genRule(r, 0, 1)
+			default:
+				t.Deny = genRule(r, 1, 8)
+			}
+		default:
 			switch r.Intn(8) {
 			case 0:
 			case 1:
@@ -356,6 +483,13 @@ func init() {
 			multiIn{Proto: "http", Kind: "ws", Via: "v4", XFF: []string{}, Targets: []multiTarget{{Allow: "ip:127.0.0.1", Up: "dead"}, {Deny: "ip:127.0.0.1", Up: "live"}}},
 			multiIn{Proto: "http", Kind: "ws", Via: "v4", XFF: []string{}, Targets: []multiTarget{{Deny: "ip:127.0.0.1", Up: "live"}}},
 			multiIn{Proto: "http", Kind: "sse", Via: "v6", XFF: []string{"9.9.9.9"}, Targets: []multiTarget{{Deny: "ip:9.9.9.9", Up: "live"}}},
+			// through the real table: route commands, Table.Lookup / LookupHost, rr picker
+			multiIn{Proto: "tcp", Table: true, Via: "v4", XFF: []string{}, Targets: []multiTarget{{Allow: "ip:127.0.0.0/8", Up: "dead"}, {Deny: "ip:127.0.0.0/8", Up: "live"}}},
+			multiIn{Proto: "sni", Table: true, Via: "v4", XFF: []string{}, Targets: []multiTarget{{Deny: "ip:127.0.0.1", Up: "live"}}},
+			multiIn{Proto: "dyn", Table: true, PP: true, Src: "10.1.2.3", Port: 4000, Via: "v6", XFF: []string{}, Targets: []multiTarget{{Allow: "ip:10.0.0.0/8,ip:bad", Up: "live"}}},
+			multiIn{Proto: "http", Table: true, Via: "v4", XFF: []string{}, Targets: []multiTarget{{Allow: "ip:10.0.0.0/8", Redirect: "301", Up: "live"}}},
+			multiIn{Proto: "http", Table: true, Via: "v4", XFF: []string{}, Targets: []multiTarget{{Allow: "ip:127.0.0.0/8", Redirect: "+307", Up: "live"}}},
+			multiIn{Proto: "http", Table: true, Via: "v6", XFF: []string{"9.9.9.9"}, Targets: []multiTarget{{Deny: "ip:9.9.9.9", Redirect: "308", Up: "dead"}, {Up: "live"}}},
 			// PROXY protocol: the announced source is the peer
 			multiIn{Proto: "tcp", PP: true, Src: "10.1.2.3", Port: 40000, Via: "v4", XFF: []string{}, Targets: []multiTarget{{Allow: "ip:10.0.0.0/8", Up: "live"}}},
 			multiIn{Proto: "tcp", PP: true, Src: "9.9.9.9", Port: 40000, Via: "v4", XFF: []string{}, Targets: []multiTarget{{Allow: "ip:10.0.0.0/8", Up: "live"}}},
